@@ -7,7 +7,7 @@ SYM_QUICK = ['h_s_block1', 'h_s_block2_1', 'h_s_block2_3', 'h_s_block_inv2', 'h_
 SYM_THOROUGH = ['h_s_block1'] + ['h_s_block2_%d' % r for r in range(5)] + ['h_s_block_inv2', 'h_s_block_inv3', 'h_s_binmap'] + \
     ['h_s_forbid_%d' % m for m in (1, 2, 3, 4, 5, 7, 8, 9)] + ['h_s_block3_%d%d' % (a, b) for a in (1, 2, 3) for b in (0, 1, 2, 3)]
 ENUM = ['h_e_block2', 'h_e_block3', 'h_e_block4', 'h_e_words', 'h_e_words0', 'h_e_bip22', 'h_e_bip23', 'h_e_bip32', 'h_e_graph3', 'h_e_graph4',
-        'h_e_digraph2', 'h_e_digraph3', 'h_e_mapping', 'h_e_mapping_empty', 'h_e_hist2']
+        'h_e_digraph2', 'h_e_digraph3', 'h_e_mapping', 'h_e_mapping_empty', 'h_e_hist2', 'h_e_arity']
 ENUM_THOROUGH = ENUM + ['h_e_hist3']
 
 
